@@ -12,6 +12,8 @@ import (
 var noPanicStd = map[string]bool{
 	"strings.HasPrefix": true, "fmt.Errorf": true, "errors.New": true, "math/bits.LeadingZeros64": true,
 	"math.Sqrt": true, "fmt.Sprintf": true, "math/bits.Len64": true, "math/bits.TrailingZeros64": true,
+	"strings.TrimPrefix": true, "strings.TrimSuffix": true, "strings.HasSuffix": true, "strings.Contains": true, "strings.IndexByte": true,
+	"strings.Index": true, "strings.TrimLeft": true, "strings.TrimRight": true, "strings.Trim": true, "strings.TrimSpace": true, "math/bits.Len": true,
 }
 
 // trusted contracts (stated, not derived: they rest on representation invariants of the receiver)
